@@ -170,6 +170,9 @@ def assemble_fn(unit, spec, idx, raw, counts):
         a, b = f["ret"]
         edits.append((a, b, "(%s: %s)" % (rname, raw[a:b].decode())))
     contract = clause_block("requires", spec.get("requires", []), defs, "        ") + clause_block("ensures", spec.get("ensures", []), defs, "        ")
+    if spec.get("fn_decreases"):
+        # termination measure of a (mutually) recursive function
+        contract += "        decreases " + subst(defs, spec["fn_decreases"]) + ",\n"
     if mode == "external":
         sig = apply_edits(raw, (f["sig_start"], f["body_open"]), [e for e in edits if e[0] >= f["sig_start"]])
         text = "    #[verifier::external_body]\n    " + sig.rstrip() + contract + "    { unimplemented!() }\n"
